@@ -14,10 +14,10 @@ RULE = ('`python -m pyx12.scripts.x12norm` is run as a subprocess (one process p
         'combination of --eol, --fixcounting and output mode {stdout, --output FILE, --inplace}. Oracles: tokenised output == tokenised input (ids, values, delimiters); with --eol exactly one segment '
         'per line; normalising the output again with the same options is a byte-for-byte fixpoint; the three output modes produce the same bytes; with --fixcounting and inputs whose only '
         'defects are those counts/HL01 numbers the independent recount finds no such defect in the output and the only values that differ are IEA01/GE01/SE01/HL01. '
-        'non-trivial = distinct (document, option set) pairs; for the repair part those with >=1 perturbed counter.')
-ASSUMPTIONS = ['input files are ASCII (the tool opens files as ASCII by design); one input file per invocation',
+        'Every sixth step the last 2-3 inputs are also normalised in ONE invocation (separate arguments in place, to stdout, or through a glob pattern in place); each result must equal the single-file run. non-trivial = distinct (document, option set) pairs; for the repair part those with >=1 perturbed counter.')
+ASSUMPTIONS = ['input files are ASCII (the tool opens files as ASCII by design); --output with several input files (each overwrites the last) is not judged',
                'a segment without any element is not generated (format() writes "SE*~" for "SE~")', 'the exit status and log lines on stderr are not judged']
-REQUIRED_COUNTERS = ['inputs:longer-than-one-read-buffer:inplace', 'inputs:longer-than-one-read-buffer:output', 'inputs:longer-than-one-read-buffer:stdout', 'invocations', 'mode:stdout', 'mode:output', 'mode:inplace', 'opt:eol', 'opt:fixcounting', 'idempotence-checked', 'repairs-checked', 'perturbed-counters']
+REQUIRED_COUNTERS = ['inputs:longer-than-one-read-buffer:inplace', 'inputs:longer-than-one-read-buffer:output', 'inputs:longer-than-one-read-buffer:stdout', 'invocations', 'mode:stdout', 'mode:output', 'mode:inplace', 'opt:eol', 'opt:fixcounting', 'idempotence-checked', 'repairs-checked', 'perturbed-counters', 'multi-file-invocations', 'multi-file:later-output-shorter', 'multi-file:inplace', 'multi-file:stdout', 'multi-file:inplace-glob']
 MIN_CASES = {'quick': 120, 'thorough': 3000}
 WATCHDOG_S = {'quick': 1200, 'thorough': 7200}
 
@@ -155,7 +155,59 @@ def judge(ctx, text, meta, eol, fix, mode, nperturbed, sigs):
     sigs.add('%08x|%s%s%s' % (zlib.crc32(text.encode()), 'e' if eol else '', 'f' if fix else '', mode))
 
 
+def multi(ctx, texts, eol, fix, how, meta):
+    """several input files in ONE invocation (separate arguments or one glob pattern): every file must come out exactly as when it is normalised alone"""
+    case = dict(meta, options={'eol': eol, 'fixcounting': fix, 'mode': how}, texts=[t if len(t) < 60000 else None for t in texts])
+    d = os.path.join(ctx.scratch, 'c20-multi-%d' % ctx.shard)
+    os.makedirs(d, exist_ok=True)
+    for f in os.listdir(d):
+        os.unlink(os.path.join(d, f))
+    alone = []
+    for i, t in enumerate(texts):
+        pth = os.path.join(d, 'alone.x12')
+        with open(pth, 'w', encoding='ascii', newline='') as fd:
+            fd.write(t)
+        rc, got, so, err = run_norm(ctx, pth, eol, fix, 'stdout')
+        os.unlink(pth)
+        if rc != 0:
+            return      # judged by the single-file part
+        alone.append(got)
+    paths = []
+    for i, t in enumerate(texts):
+        pth = os.path.join(d, 'in%d.x12' % i)
+        with open(pth, 'w', encoding='ascii', newline='') as fd:
+            fd.write(t)
+        paths.append(pth)
+    cmd = [sys.executable, '-m', 'pyx12.scripts.x12norm'] + (['-e'] if eol else []) + (['-f'] if fix else [])
+    if how in ('inplace', 'inplace-glob'):
+        cmd.append('-i')
+    cmd += [os.path.join(d, 'in*.x12')] if how == 'inplace-glob' else paths
+    p = subprocess.run(cmd, stdout=subprocess.PIPE, stderr=subprocess.PIPE, env=dict(os.environ, PYTHONWARNINGS='ignore'), timeout=300, cwd=ctx.scratch)
+    ctx.count('invocations')
+    ctx.count('multi-file-invocations')
+    ctx.count('multi-file:' + how)
+    if any(len(a) > len(b) for a, b in zip(alone, alone[1:])):
+        ctx.count('multi-file:later-output-shorter')
+    if p.returncode != 0:
+        ctx.viol('norm:multi:failed', 'x12norm failed on several readable interchanges given at once', case, {'rc': p.returncode, 'stderr': p.stderr.decode('ascii', 'replace')[-400:]})
+        return
+    if how == 'stdout':
+        got = p.stdout.decode('ascii', 'replace')
+        if got != ''.join(alone):
+            ctx.viol('norm:multi:stdout-differs', 'several files normalised to stdout are not the concatenation of the files normalised one by one', case,
+                     {'got_len': len(got), 'expected_len': sum(len(a) for a in alone), 'got_tail': got[-200:]})
+        return
+    for i, (pth, a) in enumerate(zip(paths, alone)):
+        got = open(pth, encoding='ascii', newline='').read()
+        if got != a:
+            k = next((j for j, (x, y) in enumerate(zip(got + '\0', a + '\0')) if x != y), None)
+            ctx.viol('norm:multi:%s:file-differs-from-single-run' % how, 'a file normalised together with others differs from the same file normalised alone', case,
+                     {'file_index': i, 'got_len': len(got), 'expected_len': len(a), 'first_difference_at': k, 'got_there': got[k:k + 120] if k is not None else None})
+            return
+
+
 def run(ctx):
+    recent = []
     sigs = set()
     n = 0
     fx = corpus.fixtures()
@@ -201,11 +253,23 @@ def run(ctx):
             meta = {'map': e['file'], 'terms': list(terms), 'line_break': brk, 'perturbed': nper, 'k': ['c20', ctx.shard, k]}
         judge(ctx, text, meta, eol, fix, mode, nper, sigs)
         n += 1
+        if all(ord(c) < 128 for c in text):
+            recent = (recent + [text])[-3:]
+        if k % 6 == 5 and len(recent) >= 2:
+            group = sorted(recent, key=len, reverse=True) if k % 12 == 5 else list(recent)       # every other time the longest file first
+            multi(ctx, group[:rng.choice([2, 3])], eol, fix, ['inplace', 'stdout', 'inplace-glob'][(k // 6 + ctx.shard) % 3], {'k': ['c20', ctx.shard, k], 'multi': True})
+            n += 1
         ctx.sample(dict(meta, options=[eol, fix, mode], text_head=text[:200]))
     ctx.case(n=n, sigs=sorted(sigs))
 
 
 def replay(ctx, case):
+    if case.get('multi'):
+        if any(t is None for t in case['texts']):
+            raise RuntimeError('case texts not stored; re-run with the same VERIF_SEED')
+        o = case['options']
+        multi(ctx, case['texts'], o['eol'], o['fixcounting'], o['mode'], {'k': case.get('k'), 'multi': True})
+        return
     text = case.get('text')
     if text is None:
         raise RuntimeError('case text not stored; re-run with the same VERIF_SEED')
